@@ -162,26 +162,150 @@ example : cfgRun [20] {} [.readVersion, .setExportStamp (some 0x5F94C216), .setA
     [.version (.ok (toTxt "Cobalt Strike 3.4 (Jul 29, 2016)")), .version (.ok (toTxt "Cobalt Strike 4.2 (Nov 06, 2020)")),
      .version (.ok (toTxt "Cobalt Strike 3.4 (Jul 29, 2016)"))] := by decide +kernel
 
-/-! ## PE artifacts of a stage `P ++ I`
+/-! ## PE artifacts of a stage, for every `start_offset` and every `maxrange`
 
-`Stage P I maxrange` (Lemmas): `I` starts with a DOS header whose signed `e_lfanew` lies in `(0, maxrange)`, the
-`IMAGE_FILE_HEADER` at `e_lfanew + 4` is inside `I` and names machine 0x8664 or 0x14c, `|P| < maxrange`, and
-`NoEarlierCandidate (P ++ I) 0 maxrange |P|` (no smaller offset passes the e_lfanew + Machine test).
-`Img.*` are the fields of the image at their absolute offsets. Every statement holds for any initial file position
-and for both file kinds (BytesIO / OS file). -/
+The file is `J ++ P ++ I` and the helper is called with `start_offset = |J|` and `maxrange = m`:
+`J` = the bytes in front of the start offset (arbitrary; the scan never looks at them — they may even contain a complete
+image), `P` = the bytes between the start offset and the image, `I` = the image.
+`StageAt J P I m` (Lemmas): `I` starts with a DOS header whose signed `e_lfanew` lies in `(0, m)`, the `IMAGE_FILE_HEADER`
+at `e_lfanew + 4` is inside `I` and names machine 0x8664 or 0x14c, `|P| < m`, and
+`NoEarlierCandidate (J ++ P ++ I) |J| m |P|` (no offset `|J| + o`, `o < |P|`, passes the e_lfanew + Machine test).
+`Img.*` are the fields of the image at their offsets inside the image.
+
+What the code does (pe.py 193-205, 346-348), and what is therefore stated:
+* the reported offset is ABSOLUTE: `return start_offset + offset`, i.e. `|J| + |P|`;
+* `maxrange` bounds both the scanned window (`|P| < m`) and `e_lfanew` (`e_lfanew < m`);
+* `find_stage_prepend_append` reads the prepend with `fh.seek(0); fh.read(mz_offset)`: with a non-zero start offset the
+  reported prepend is `J ++ P` — everything in front of the image, including the bytes BEFORE `start_offset`;
+* no helper restores the file position: each leaves it where its last read ended (`Img.endPos`), independent of the
+  position it found (`pe_position_independent`).
+Every statement holds for any initial file position and for both file kinds (BytesIO / OS file). -/
+
+/-- every helper on a stage: the reported value AND the file it leaves behind -/
+theorem stage_call_at {J P I : Bytes} {maxrange : Nat} (h : StageAt J P I maxrange)
+    (hc : Img.headersEnd I ≤ I.length) (pos : Nat) (k : FileKind) (op : PeOp) :
+    peCall ⟨J ++ P ++ I, pos, k⟩ (some J.length) maxrange op
+      = (stageAnswerAt J P I op, ⟨J ++ P ++ I, J.length + P.length + Img.endPos I op, k⟩) := by
+  have hlen : J.length + P.length = (J ++ P).length := List.length_append.symm
+  have hmz := findMzOffset_at h pos k
+  cases op
+  · simp only [peCall, hmz, stageAnswerAt, Img.endPos]
+  · simp only [peCall, findArchitecture_at h pos k, stageAnswerAt, Img.endPos]
+  · simp only [peCall, findCompileStamps, hmz, stageAnswerAt, Img.endPos]
+    rw [hlen, compileStampsAt_image (J ++ P) h.image hc]
+  · simp only [peCall, findMagicMz, hmz, stageAnswerAt, Img.endPos]
+    rw [hlen, magicMzAt_image (J ++ P) I]
+  · simp only [peCall, findMagicPe, hmz, stageAnswerAt, Img.endPos]
+    rw [hlen, magicPeAt_image (J ++ P) h.image]
+  · simp only [peCall, findStagePrependAppend, hmz, stageAnswerAt, Img.endPos]
+    rw [hlen, prependAppendAt_image (J ++ P) h.image hc, Nat.add_assoc]
+
+/-- `find_mz_offset(fh, start_offset=s, maxrange=m)` returns the absolute offset `s + |P|` of the image -/
+theorem mz_offset_found_at {J P I : Bytes} {maxrange : Nat} (h : StageAt J P I maxrange) (pos : Nat) (k : FileKind) :
+    (findMzOffset ⟨J ++ P ++ I, pos, k⟩ (some J.length) maxrange).1 = some (J.length + P.length) := by
+  rw [findMzOffset_at h pos k]
+
+/-- … and leaves the position at the end of the image's `IMAGE_FILE_HEADER` (it is not restored) -/
+theorem mz_offset_position_at {J P I : Bytes} {maxrange : Nat} (h : StageAt J P I maxrange) (pos : Nat) (k : FileKind) :
+    (findMzOffset ⟨J ++ P ++ I, pos, k⟩ (some J.length) maxrange).2.tell = J.length + P.length + Img.optOff I := by
+  rw [findMzOffset_at h pos k]; rfl
+
+theorem architecture_found_at {J P I : Bytes} {maxrange : Nat} (h : StageAt J P I maxrange) (pos : Nat) (k : FileKind) :
+    (findArchitecture ⟨J ++ P ++ I, pos, k⟩ (some J.length) maxrange).1 = some (Img.arch I) := by
+  rw [findArchitecture_at h pos k]
+
+theorem compile_stamps_found_at {J P I : Bytes} {maxrange : Nat} (h : StageAt J P I maxrange)
+    (hc : Img.headersEnd I ≤ I.length) (pos : Nat) (k : FileKind) :
+    (findCompileStamps ⟨J ++ P ++ I, pos, k⟩ (some J.length) maxrange).1
+      = .ok (some (Img.compileStamp I), Img.exportStamp I) :=
+  congrArg (fun r => match r.1 with | .stamps x => x | _ => .ok (none, none)) (stage_call_at h hc pos k .stamps)
+
+theorem compile_stamp_truncated_at {J P I : Bytes} {maxrange : Nat} (h : StageAt J P I maxrange)
+    (hc : I.length < Img.optOff I + optSize (Img.is64 I)) (pos : Nat) (k : FileKind) :
+    (findCompileStamps ⟨J ++ P ++ I, pos, k⟩ (some J.length) maxrange).1 = .ok (some (Img.compileStamp I), none) := by
+  unfold findCompileStamps
+  rw [findMzOffset_at h pos k]
+  simp only
+  rw [← List.length_append]
+  exact compileStampsAt_image_truncated (J ++ P) h.image hc _ k
+
+theorem magic_mz_found_at {J P I : Bytes} {maxrange : Nat} (h : StageAt J P I maxrange) (pos : Nat) (k : FileKind) :
+    (findMagicMz ⟨J ++ P ++ I, pos, k⟩ (some J.length) maxrange).1 = Img.magicMz I := by
+  unfold findMagicMz
+  rw [findMzOffset_at h pos k]
+  simp only
+  rw [← List.length_append, magicMzAt_image (J ++ P) I]
+
+theorem magic_pe_found_at {J P I : Bytes} {maxrange : Nat} (h : StageAt J P I maxrange) (pos : Nat) (k : FileKind) :
+    (findMagicPe ⟨J ++ P ++ I, pos, k⟩ (some J.length) maxrange).1 = .ok (some (Img.magicPe I)) := by
+  unfold findMagicPe
+  rw [findMzOffset_at h pos k]
+  simp only
+  rw [← List.length_append, magicPeAt_image (J ++ P) h.image]
+
+/-- prepend = `J ++ P`, EVERYTHING in front of the image (`None` when empty) — the code reads it from offset 0, not from
+`start_offset`; append = the bytes after `SizeOfHeaders + Σ SizeOfRawData` -/
+theorem prepend_append_found_at {J P I : Bytes} {maxrange : Nat} (h : StageAt J P I maxrange)
+    (hc : Img.headersEnd I ≤ I.length) (pos : Nat) (k : FileKind) :
+    (findStagePrependAppend ⟨J ++ P ++ I, pos, k⟩ (some J.length) maxrange).1
+      = .ok (prependOf (J ++ P), Img.append I) :=
+  congrArg (fun r => match r.1 with | .ppa x => x | _ => .ok (none, none)) (stage_call_at h hc pos k .ppa)
+
+/-- DESIGN §C18 `mz_found` for every start offset and every maxrange -/
+theorem mz_found_at {J P I : Bytes} {maxrange : Nat} (h : StageAt J P I maxrange)
+    (hc : Img.headersEnd I ≤ I.length) (pos : Nat) (k : FileKind) :
+    let f : PyFile := ⟨J ++ P ++ I, pos, k⟩
+    let s := some J.length
+    (findMzOffset f s maxrange).1 = some (J.length + P.length) ∧
+    (findArchitecture f s maxrange).1 = some (Img.arch I) ∧
+    (findCompileStamps f s maxrange).1 = .ok (some (Img.compileStamp I), Img.exportStamp I) ∧
+    (findMagicMz f s maxrange).1 = Img.magicMz I ∧
+    (findMagicPe f s maxrange).1 = .ok (some (Img.magicPe I)) ∧
+    (findStagePrependAppend f s maxrange).1 = .ok (prependOf (J ++ P), Img.append I) :=
+  ⟨mz_offset_found_at h pos k, architecture_found_at h pos k, compile_stamps_found_at h hc pos k, magic_mz_found_at h pos k,
+    magic_pe_found_at h pos k, prepend_append_found_at h hc pos k⟩
+
+/-! ### file position: what the helpers depend on and what they leave behind -/
+
+/-- with an explicit `start_offset` no helper depends on the position of the file object it is handed: the reported value is
+the same from any position, and (as soon as the loop runs at all, `maxrange > 0`) so is the file left behind.
+This holds for ARBITRARY content, not only for stages. (`maxrange = 0`: nothing is read and the position is untouched.) -/
+theorem pe_position_independent (op : PeOp) (d : Bytes) (p q : Nat) (k : FileKind) (s maxrange : Nat) :
+    (peCall ⟨d, p, k⟩ (some s) maxrange op).1 = (peCall ⟨d, q, k⟩ (some s) maxrange op).1 ∧
+    (0 < maxrange → peCall ⟨d, p, k⟩ (some s) maxrange op = peCall ⟨d, q, k⟩ (some s) maxrange op) := by
+  by_cases hm : 0 < maxrange
+  · have e1 := findMzOffset_pos_indep d p q k s maxrange hm
+    have e2 := findArchitecture_pos_indep d p q k s maxrange hm
+    have : peCall ⟨d, p, k⟩ (some s) maxrange op = peCall ⟨d, q, k⟩ (some s) maxrange op := by
+      cases op <;> simp only [peCall, findCompileStamps, findMagicMz, findMagicPe, findStagePrependAppend, e1, e2]
+    exact ⟨by rw [this], fun _ => this⟩
+  · have : maxrange = 0 := by omega
+    subst this
+    cases op <;> exact ⟨rfl, fun h => absurd h (by omega)⟩
+
+/-- `start_offset=None` means "from `fh.tell()`" — the only way the initial position enters a result -/
+theorem pe_start_none_is_tell (f : PyFile) (maxrange : Nat) (op : PeOp) :
+    peCall f none maxrange op = peCall f (some f.tell) maxrange op := by
+  cases op <;> rfl
+
+/-- no helper changes the bytes or the kind of the file object; the position is the only side effect -/
+theorem pe_only_moves_position (f : PyFile) (start : Option Nat) (maxrange : Nat) (op : PeOp) :
+    (peCall f start maxrange op).2.data = f.data ∧ (peCall f start maxrange op).2.kind = f.kind :=
+  same_peCall f start maxrange op
+
+/-! ### the `start_offset = 0` instances (the statements of DESIGN §C18) -/
 
 /-- `find_mz_offset` returns the length of the prepended data -/
 theorem mz_offset_found {P I : Bytes} {maxrange : Nat} (h : Stage P I maxrange) (pos : Nat) (k : FileKind) :
     (findMzOffset ⟨P ++ I, pos, k⟩ (some 0) maxrange).1 = some P.length := by
-  obtain ⟨p', hp⟩ := findMzOffset_stage h pos k
-  rw [hp]
+  simpa using mz_offset_found_at h.at pos k
 
 /-- with `start_offset=None` the search starts at `fh.tell()`; at position 0 this is the same search -/
 theorem mz_offset_found_from_tell {P I : Bytes} {maxrange : Nat} (h : Stage P I maxrange) (k : FileKind) :
     (findMzOffset ⟨P ++ I, 0, k⟩ none maxrange).1 = some P.length :=
   mz_offset_found h 0 k
 
-/-- no offset in range passes the test ⇒ `None` -/
+/-- no offset in range passes the test ⇒ `None` (any start offset, any maxrange, any content) -/
 theorem mz_offset_none (f : PyFile) (start maxrange : Nat)
     (h : NoEarlierCandidate f.data start maxrange maxrange) : (findMzOffset f (some start) maxrange).1 = none := by
   obtain ⟨s1, _, _⟩ := scanLoop_spec classifyMz start maxrange (List.range maxrange) f
@@ -206,50 +330,35 @@ theorem mz_offset_none (f : PyFile) (start maxrange : Nat)
 /-- `find_architecture` reports the machine encoded in the image -/
 theorem architecture_found {P I : Bytes} {maxrange : Nat} (h : Stage P I maxrange) (pos : Nat) (k : FileKind) :
     (findArchitecture ⟨P ++ I, pos, k⟩ (some 0) maxrange).1 = some (Img.arch I) :=
-  findArchitecture_stage h pos k
+  architecture_found_at h.at pos k
 
 /-- compile stamp = `IMAGE_FILE_HEADER.TimeDateStamp`; export stamp = `IMAGE_EXPORT_DIRECTORY.TimeDateStamp` found through
 the first section containing the export RVA, `None` when no section contains it (or the directory is cut off) -/
 theorem compile_stamps_found {P I : Bytes} {maxrange : Nat} (h : Stage P I maxrange)
     (hc : Img.headersEnd I ≤ I.length) (pos : Nat) (k : FileKind) :
-    (findCompileStamps ⟨P ++ I, pos, k⟩ (some 0) maxrange).1 = .ok (some (Img.compileStamp I), Img.exportStamp I) := by
-  obtain ⟨p', hp⟩ := findMzOffset_stage h pos k
-  unfold findCompileStamps
-  rw [hp]
-  exact compileStampsAt_stage h hc p' k
+    (findCompileStamps ⟨P ++ I, pos, k⟩ (some 0) maxrange).1 = .ok (some (Img.compileStamp I), Img.exportStamp I) :=
+  compile_stamps_found_at h.at hc pos k
 
 /-- truncated image (optional header cut off): the compile stamp that was read is still reported, the export stamp is
 `None` (the behaviour introduced by fix 5e250e6; before it EOFError escaped) -/
 theorem compile_stamp_truncated {P I : Bytes} {maxrange : Nat} (h : Stage P I maxrange)
     (hc : I.length < Img.optOff I + optSize (Img.is64 I)) (pos : Nat) (k : FileKind) :
-    (findCompileStamps ⟨P ++ I, pos, k⟩ (some 0) maxrange).1 = .ok (some (Img.compileStamp I), none) := by
-  obtain ⟨p', hp⟩ := findMzOffset_stage h pos k
-  unfold findCompileStamps
-  rw [hp]
-  exact compileStampsAt_stage_truncated h hc p' k
+    (findCompileStamps ⟨P ++ I, pos, k⟩ (some 0) maxrange).1 = .ok (some (Img.compileStamp I), none) :=
+  compile_stamp_truncated_at h.at hc pos k
 
 theorem magic_mz_found {P I : Bytes} {maxrange : Nat} (h : Stage P I maxrange) (pos : Nat) (k : FileKind) :
-    (findMagicMz ⟨P ++ I, pos, k⟩ (some 0) maxrange).1 = Img.magicMz I := by
-  obtain ⟨p', hp⟩ := findMzOffset_stage h pos k
-  unfold findMagicMz
-  rw [hp]
-  exact magicMzAt_stage P I p' k
+    (findMagicMz ⟨P ++ I, pos, k⟩ (some 0) maxrange).1 = Img.magicMz I :=
+  magic_mz_found_at h.at pos k
 
 theorem magic_pe_found {P I : Bytes} {maxrange : Nat} (h : Stage P I maxrange) (pos : Nat) (k : FileKind) :
-    (findMagicPe ⟨P ++ I, pos, k⟩ (some 0) maxrange).1 = .ok (some (Img.magicPe I)) := by
-  obtain ⟨p', hp⟩ := findMzOffset_stage h pos k
-  unfold findMagicPe
-  rw [hp]
-  exact magicPeAt_stage h p' k
+    (findMagicPe ⟨P ++ I, pos, k⟩ (some 0) maxrange).1 = .ok (some (Img.magicPe I)) :=
+  magic_pe_found_at h.at pos k
 
 /-- prepend = exactly `P` (`None` when empty); append = the bytes after `SizeOfHeaders + Σ SizeOfRawData` -/
 theorem prepend_append_found {P I : Bytes} {maxrange : Nat} (h : Stage P I maxrange)
     (hc : Img.headersEnd I ≤ I.length) (pos : Nat) (k : FileKind) :
-    (findStagePrependAppend ⟨P ++ I, pos, k⟩ (some 0) maxrange).1 = .ok (prependOf P, Img.append I) := by
-  obtain ⟨p', hp⟩ := findMzOffset_stage h pos k
-  unfold findStagePrependAppend
-  rw [hp]
-  exact prependAppendAt_stage h hc p' k
+    (findStagePrependAppend ⟨P ++ I, pos, k⟩ (some 0) maxrange).1 = .ok (prependOf P, Img.append I) :=
+  prepend_append_found_at h.at hc pos k
 
 /-- DESIGN §C18 `mz_found`: all reported artifacts of a stage equal those of the image, irrespective of `P`. -/
 theorem mz_found {P I : Bytes} {maxrange : Nat} (h : Stage P I maxrange)
@@ -264,19 +373,21 @@ theorem mz_found {P I : Bytes} {maxrange : Nat} (h : Stage P I maxrange)
   ⟨mz_offset_found h pos k, architecture_found h pos k, compile_stamps_found h hc pos k, magic_mz_found h pos k,
     magic_pe_found h pos k, prepend_append_found h hc pos k⟩
 
-/-- several calls on ONE file object (any order, any `fh.seek` in between, any position left behind by earlier calls):
-every call on a stage reports the image's artifacts — no result depends on call order or previous position -/
-theorem pe_history_independent {P I : Bytes} {maxrange : Nat} (h : Stage P I maxrange) (hc : Img.headersEnd I ≤ I.length)
-    (calls : List PeCall) (hs : ∀ c ∈ calls, c.start = some 0) (f : PyFile) (hf : f.data = P ++ I) :
-    (peRun maxrange f calls).map (·.1) = calls.map (fun c => stageAnswer P I c.op) := by
+/-- several calls on ONE file object (any order, any `fh.seek` in between, any position left behind by earlier calls), each
+with `start_offset = |J|`: every call reports the image's artifacts and leaves the position at its own `Img.endPos` — no
+result and no final position depends on call order or on the previous position -/
+theorem pe_history_independent_at {J P I : Bytes} {maxrange : Nat} (h : StageAt J P I maxrange)
+    (hc : Img.headersEnd I ≤ I.length)
+    (calls : List PeCall) (hs : ∀ c ∈ calls, c.start = some J.length) (f : PyFile) (hf : f.data = J ++ P ++ I) :
+    peRun maxrange f calls
+      = calls.map (fun c => (stageAnswerAt J P I c.op, J.length + P.length + Img.endPos I c.op)) := by
   induction calls generalizing f with
   | nil => rfl
   | cons c cs ih =>
-    have hstart : c.start = some 0 := hs c (by simp)
+    have hstart : c.start = some J.length := hs c (by simp)
     unfold peRun
     simp only [List.map_cons]
-    -- the file the call runs on: same bytes, some position
-    have hf0 : ∃ pos k, seekOpt f c.seekTo = ⟨P ++ I, pos, k⟩ := by
+    have hf0 : ∃ pos k, seekOpt f c.seekTo = ⟨J ++ P ++ I, pos, k⟩ := by
       obtain ⟨d, p, k⟩ := f
       simp only at hf
       subst hf
@@ -284,17 +395,19 @@ theorem pe_history_independent {P I : Bytes} {maxrange : Nat} (h : Stage P I max
       | none => exact ⟨p, k, rfl⟩
       | some q => exact ⟨q, k, rfl⟩
     obtain ⟨pos, k, hf0⟩ := hf0
-    rw [hf0, hstart]
-    have hsame := same_peCall ⟨P ++ I, pos, k⟩ (some 0) maxrange c.op
-    have hres : (peCall ⟨P ++ I, pos, k⟩ (some 0) maxrange c.op).1 = stageAnswer P I c.op := by
-      cases c.op
-      · simp only [peCall, stageAnswer, mz_offset_found h pos k]
-      · simp only [peCall, stageAnswer, architecture_found h pos k]
-      · simp only [peCall, stageAnswer, compile_stamps_found h hc pos k]
-      · simp only [peCall, stageAnswer, magic_mz_found h pos k]
-      · simp only [peCall, stageAnswer, magic_pe_found h pos k]
-      · simp only [peCall, stageAnswer, prepend_append_found h hc pos k]
-    rw [hres, ih (fun c' hc' => hs c' (by simp [hc'])) _ hsame.1]
+    rw [hf0, hstart, stage_call_at h hc pos k c.op]
+    simp only
+    rw [ih (fun c' hc' => hs c' (by simp [hc'])) _ rfl]
+    rfl
+
+/-- the `start_offset = 0` instance (values only) -/
+theorem pe_history_independent {P I : Bytes} {maxrange : Nat} (h : Stage P I maxrange) (hc : Img.headersEnd I ≤ I.length)
+    (calls : List PeCall) (hs : ∀ c ∈ calls, c.start = some 0) (f : PyFile) (hf : f.data = P ++ I) :
+    (peRun maxrange f calls).map (·.1) = calls.map (fun c => stageAnswer P I c.op) := by
+  rw [pe_history_independent_at h.at hc calls hs f hf, List.map_map]
+  apply List.map_congr_left
+  intro c _
+  exact stageAnswerAt_nil P I c.op
 
 
 /-! ## the file-like-generic functions (used over the XorEncoded view by C01/C09) coincide with the PyFile models -/
@@ -335,6 +448,25 @@ example : Img.arch sampleImage = .x86 ∧ Img.compileStamp sampleImage = 0x5F94C
 example : (findCompileStamps (PyFile.ofBytes (samplePrepend ++ sampleImage)) (some 0) 1024).1
     = .ok (some 0x5F94C216, some 0x603E2D9D) := by decide +kernel
 
+
+/-- a non-zero start offset and a non-default maxrange: a COMPLETE x64 image in front of the start offset (328 bytes, never
+inspected), then 3 bytes, then the x86 image; `maxrange = 65` (`e_lfanew = 64` is the largest value it admits) -/
+example : StageAt sampleImage64 samplePrepend sampleImage 65 :=
+  ⟨⟨by decide +kernel, by decide +kernel, by decide +kernel, by decide +kernel, by decide +kernel⟩, by decide +kernel,
+    by decide +kernel⟩
+
+/-- the executable model on those bytes (OS file, initial position 7): absolute offset 328 + 3, x86 (not the x64 image in
+front), prepend = all 331 bytes in front of the image, position left at the end of the file header / after the append read -/
+example :
+    (findMzOffset sampleFileAt (some 328) 65).1 = some 331 ∧
+    (findMzOffset sampleFileAt (some 328) 65).2.pos = 331 + 88 ∧
+    (findArchitecture sampleFileAt (some 328) 65).1 = some .x86 ∧
+    (findStagePrependAppend sampleFileAt (some 328) 65).1 = .ok (some (sampleImage64 ++ samplePrepend), some [65, 66]) ∧
+    (findStagePrependAppend sampleFileAt (some 328) 65).2.pos = 331 + 420 ∧
+    -- one less of maxrange and the image is no longer accepted (`e_lfanew < maxrange`)
+    (findMzOffset sampleFileAt (some 328) 64).1 = none ∧
+    -- from start offset 0 the x64 image in front is found instead
+    (findArchitecture sampleFileAt (some 0) 65).1 = some .x64 := by decide +kernel
 
 /-- x64, no section contains the export RVA ⇒ export stamp `None`; nothing prepended ⇒ prepend `None`; nothing appended ⇒ `None` -/
 example : Stage [] sampleImage64 1024 :=
